@@ -43,6 +43,8 @@ ASSUMPTIONS = [
     "mc/ref/c12_file_ref.csv_text_representable - not null-, bool-, number-, date-, time-looking, no lone CR); "
     "datetimes lie in the int64-nanosecond range; object columns other than bool-with-None are excluded; Arrow's CSV "
     "reader/writer and CPython's csv/json/pickle/gzip/bz2/lzma are trusted",
+    "CSV: a one-column frame holding a missing value is not representable (the row is an empty line, which CSV readers "
+    "skip as a blank line; RFC 4180 does not define it) and is excluded from the CSV space",
     "CSV without a header can only represent the generated names a, b, c, ...; such frames are named so",
     "JSON frames hold bool/int/float/string (finite floats: Infinity/NaN literals are not JSON); "
     "dates are not representable in JSON (written as strings)",
@@ -234,6 +236,10 @@ def df_representable(fmt, opts, cols):
         if not all(R.encodable(t, enc) for t in frame_texts(cols)):
             return False
     if fmt == "csv":
+        if len(cols) == 1 and any(t is None for t in cols[0][2]):
+            # A row whose only field is missing is an empty line, which CSV readers (Arrow, Python's csv,
+            # pandas) conventionally skip as a blank line: not representable in CSV.
+            return False
         for name, kind, toks in cols:
             if kind == "str" and not all(t is None or R.csv_text_representable(t) for t in toks):
                 return False
@@ -479,7 +485,9 @@ def execute(case):
             magic_state = "ok"
         else:
             magic_state = "bad"
-            viol.append(("magic", f"write_{fmt}({os.path.basename(path)!r}) did not compress: file starts with {head!r}, "
+            other = [sfx for sfx in R.MAGIC if R.magic_ok(sfx, head)]
+            how = f"holds {other[0]} data instead" if other else ("is missing" if head is None else "is not compressed at all")
+            viol.append(("magic", f"write_{fmt}({os.path.basename(path)!r}): the file {how}: it starts with {head!r}, "
                                   f"expected {R.MAGIC[suffix]!r}; directory holds {listing(d)}"))
     try:
         out = getattr(klass, "read_" + fmt)(path, **opts)
@@ -582,7 +590,7 @@ def classify(v):
     enc = opts.get("encoding", "utf-8")
     detail = v.get("detail", "")
     if op == "DataFrame.csv" and suffix:
-        if clause == "magic":
+        if clause == "magic" and "is not compressed at all" in detail:
             return f"csv-plain-text-under{suffix}"
         if clause == "read-raised" and suffix in (".gz", ".bz2") and enc == "utf-8" and ("compress" in detail.lower() or "inflate" in detail):
             return f"csv-plain-text-under{suffix}-unreadable"
@@ -590,15 +598,15 @@ def classify(v):
             return f"csv-reencode-of-plain-text-under{suffix}"
     if op == "DataFrame.npz" and suffix and clause == "read-raised" and "FileNotFoundError" in detail:
         return "npz-suffix-appended-on-write"
-    if clause == "read-raised" and enc == "utf-16" and suffix == ".bz2" and "BOM" in detail:
-        return "utf16-bom-missing-under.bz2"
+    if clause == "read-raised" and enc == "utf-16" and suffix in (".bz2", ".xz") and "BOM" in detail:
+        return f"utf16-bom-missing-under{suffix}"
     if c["cls"] == "df":
         cols = c["cols"]
         toks = [t for _, _, ts in cols for t in ts]
         if op == "DataFrame.csv" and clause == "nrow" and len(cols) == 1 and None in toks:
             return "csv-one-column-missing-row-dropped"
         if (op == "DataFrame.csv" and clause == "read-raised" and len(cols) == 1 and all(t is None for t in toks)
-                and not opts.get("header", True) and not suffix and "Empty CSV file" in detail):
+                and not opts.get("header", True) and suffix in ("", ".xz") and "Empty CSV file" in detail):
             return "csv-one-column-all-missing-no-header-empty-file"
         if op == "DataFrame.npz" and clause == "write-raised" and "file" in [cc[0] for cc in cols] and "'file'" in detail:
             return "npz-column-named-file"
